@@ -17,14 +17,27 @@
 (*   Loops     `for each tag of a repository do ...`                       *)
 (*   Errors    error() between calls                                       *)
 (*   Mixed     read, write, read, write over a reduced alphabet            *)
+(*   Forms     method forms, objects / digests as references, option tables*)
 (*   Isolation a script that fails (one per API function and failure       *)
 (*             mode: bad argument, absent tag, nil object, failure while   *)
-(*             the throttle slot is held, error()) followed by scripts     *)
-(*             that use the throttled bindings; parallel 0, 1 and 2        *)
+(*             the throttle slot is held, error(), a registry call cut off *)
+(*             by the script's own timeout) followed by scripts that use   *)
+(*             the throttled bindings; parallel 0, 1 and 2                 *)
+(* Dimensions of a config beyond the scripts (the design spec is agnostic  *)
+(* of the last three, the driver realises them):                           *)
+(*   world  A, B (populated differently), N (the layout does not exist)    *)
+(*   mt     "oci" | "docker": media types of the stored manifests          *)
+(*   feat   "full" | "min": optional features of the model registries      *)
+(*          (min: no tag delete API, no mount, no single-POST upload,      *)
+(*          pages of one entry)                                            *)
+(*   tmo    where the script timeout is configured: "default" (defaults:)  *)
+(*          "script" (per script) "none" (nowhere) "short" (300 ms for the *)
+(*          first script only; with the tag `slow`, which the registries   *)
+(*          answer after 700 ms, its call is cut off by the timeout)       *)
 (***************************************************************************)
 EXTENDS RegbotMC, Json
 
-VARIABLES prog, hist, wid
+VARIABLES prog, hist, dims
 
 Sq(x) == <<x>>
 A1v1 == S("manifest.get", "a1", "v1", "", "")
@@ -95,6 +108,28 @@ W4 == {S("image.copy", "a1", "v1", "b1", "new"), S("tag.delete", "a1", "ix", "",
        S("manifest.put", "lay", "new", "", ""), S("blob.put", "b1", "", "$c", ""), S("image.importTar", "a2", "new", "good", "")}
 Mixed == {<<a, b, c, d>> : a \in R4, b \in W4, c \in R4, d \in W4}
 
+\* method forms, objects and digests where a reference is expected, option tables
+MGet(r) == S("manifest.get", r[1], r[2], "", "")
+Forms ==
+  {<<MGet(r), S(op, "", "", "", "")>> : r \in {<<"a1", "v1">>, <<"lay", "ix">>, <<"a1", "none">>}, op \in {"m:head", "m:ratelimitWait"}}
+  \cup {<<S(p, l, "", "C1", ""), c>> : p \in {"blob.get", "blob.head"}, l \in {"a1", "lay"},
+                                    c \in {S("b:get", "", "", "C1", ""), S("b:head", "", "", "C1", ""), S("b:put", "", "", "$b", ""), S("b:put", "", "", "str", "")}}
+  \cup {<<S("image.config", "a1", "v1", "", ""), S("blob.get", l, "", "C1", ""), S("b:put", "", "", "$c", "")>> : l \in {"a1", "lay"}}
+  \cup {<<S("image.config", r[1], r[2], "", ""), c>> : r \in {<<"a1", "v1">>, <<"lay", "v1">>}, c \in {S("tag.ls", "$c", "", "", ""), S("reference.new", "$c", "", "", "")}}
+  \cup {<<S("reference.new", t[1], t[2], "", ""), w>> : t \in {<<"b1", "new">>, <<"lay", "new">>, <<"a1", "v1">>},
+           w \in {S("blob.put", "$r", "", "str", ""), S("image.importTar", "$r", "", "good", ""), S("image.exportTar", "$r", "", "out", ""),
+                  S("r:close", "", "", "", ""), S("tag.delete", "$r", "", "", "")}}
+  \cup {<<MGet(<<"a1", "v1">>), S("reference.new", t[1], t[2], "", ""), w, S("tag.ls", t[1], "", "", "")>> :
+           t \in {<<"b1", "new">>, <<"lay", "new">>}, w \in {S("manifest.put", "$r", "", "", ""), S("m:put", "$r", "", "", "")}}
+  \cup {<<S("image.config", "a1", "v1", "", ""), S("reference.new", t[1], t[2], "", ""), S("blob.put", "$r", "", "$c", "")>> : t \in {<<"b1", "new">>, <<"lay", "new">>}}
+  \cup {<<S(op, s[1], s[2], t[1], t[2]), S("tag.ls", t[1], "", "", "")>> : op \in {"image.copy+pf", "image.copy+ie", "image.copy+dt", "image.copy+fr"},
+           s \in {<<"a1", "ix">>, <<"lay", "ix">>, <<"a1", "v1">>}, t \in {<<"b1", "new">>, <<"lay", "new">>, <<"a1", "new">>}}
+  \cup {<<S("image.copy", l, "M1", t[1], t[2]), S("manifest.head", t[1], t[2], "", "")>> : l \in {"a1", "lay"}, t \in {<<"b1", "new">>, <<"lay", "new">>}}
+  \cup {<<S("manifest.head", l, "M1", "", ""), S("m:delete", "", "", "", ""), S("tag.ls", l, "", "", "")>> : l \in {"a1", "lay"}}
+  \cup {<<MGet(<<"a1", "v1">>), S("manifest.put", l, "M1", "", ""), S("manifest.head", l, "M1", "", "")>> : l \in {"b1", "lay"}}
+  \cup {Sq(S("tag.delete", l, "M1", "", "")) : l \in {"a1", "lay"}}
+  \cup {Sq(S("repo.ls+limit", r, "", "", "")) : r \in Regs}
+
 (* ------------------------- failing scripts ----------------------------- *)
 \* one per API function and failure mode; the last statement is the one that fails
 FailBadArg == {Sq(S(op, "bad", "", "", "")) : op \in {"tag.ls", "tag.delete", "manifest.get", "manifest.getList", "manifest.head", "image.config",
@@ -120,23 +155,33 @@ FailInside == {<<S("manifest.getList", "a1", "ix", "", ""), S("image.config", "$
                <<F("a1", "2"), S("manifest.getList", "@", "", "", ""), S("m:config", "", "", "", "")>>}
 FailError == {Sq(ErrorStmt), <<S("tag.ls", "a1", "", "", ""), ErrorStmt>>}
 FailScripts == FailBadArg \cup FailAbsent \cup FailNil \cup FailInside \cup FailError
+\* with tmo = "short": the call on the tag `slow` outlives the 300 ms of the first script
+FailTimeout == {Sq(S("manifest.head", "a1", "slow", "", "")), Sq(S("image.config", "a1", "slow", "", "")),
+                Sq(S("image.copy", "a1", "slow", "b1", "new")), <<S("tag.ls", "a1", "", "", ""), S("manifest.get", "a1", "slow", "", "")>>}
 FollowUps == {<<S("image.copy", "a1", "v1", "b1", "new"), S("image.config", "a1", "v1", "", "")>>,
               <<S("image.exportTar", "lay", "v1", "out", ""), S("tag.ls", "a1", "", "", "")>>,
               <<S("image.config", "lay", "v1", "", ""), S("image.importTar", "a2", "new", "good", "")>>}
 
 (* ------------------------------ configs -------------------------------- *)
-Cfg(w, p, ss) == [world |-> w, par |-> p, scripts |-> ss]
-One == Singles \cup Chains \cup AfterW \cup Guarded \cup Loops \cup Errors \cup Mixed
-Configs ==
-  {Cfg(w, 0, <<s>>) : w \in {"A", "B"}, s \in One}
-  \cup {Cfg("A", p, <<f, u>>) : p \in {0, 1}, f \in FailScripts, u \in FollowUps}
+Cfg(w, p, ss) == [world |-> w, mt |-> "oci", feat |-> "full", tmo |-> "default", par |-> p, scripts |-> ss]
+One == Singles \cup Chains \cup AfterW \cup Guarded \cup Loops \cup Errors \cup Mixed \cup Forms
+UsesLay(s) == \E i \in 1..Len(s) : "lay" \in {s[i].l1, s[i].l2}
+IsoBase ==
+  {Cfg("A", p, <<f, u>>) : p \in {0, 1}, f \in FailScripts, u \in FollowUps}
   \cup {Cfg("A", 2, <<f, f, u>>) : f \in FailScripts, u \in FollowUps}
   \cup {Cfg("A", p, <<u, f, v>>) : p \in {0, 1}, f \in FailInside, u \in FollowUps, v \in FollowUps}
+Configs ==
+  {Cfg(w, 0, <<s>>) : w \in {"A", "B"}, s \in One}
+  \cup {Cfg("N", 0, <<s>>) : s \in {x \in One \ Mixed : UsesLay(x)}}
+  \cup {[Cfg("A", 0, <<s>>) EXCEPT !.mt = "docker"] : s \in Singles \cup Chains \cup Forms}
+  \cup {[Cfg("A", 0, <<s>>) EXCEPT !.feat = "min"] : s \in Chains \cup AfterW \cup Guarded \cup Loops \cup Forms}
+  \cup {[c EXCEPT !.tmo = t] : c \in IsoBase, t \in {"default", "script", "none"}}
+  \cup {[Cfg("A", p, <<f, u>>) EXCEPT !.tmo = "short"] : p \in {0, 1, 2}, f \in FailTimeout, u \in FollowUps}
 
 (* ------------------------- execution by (D) ---------------------------- *)
 Pad(ss) == [s \in Scripts |-> IF s <= Len(ss) THEN ss[s] ELSE <<>>]
 GInit == \E c \in Configs, m \in {"dry", "nor"} :
-           /\ prog = Pad(c.scripts) /\ hist = <<>> /\ wid = c.world
+           /\ prog = Pad(c.scripts) /\ hist = <<>> /\ dims = [world |-> c.world, mt |-> c.mt, feat |-> c.feat, tmo |-> c.tmo]
            /\ InitWith(Worlds[c.world], m, c.par)
 Ext(s) == IF ip[s] < Len(prog[s]) THEN prog[s][ip[s] + 1] ELSE NoStmt
 BodyOf(s) == SubSeq(prog[s], ip[s] + 2, ip[s] + 1 + (IF Ext(s).l2 = "2" THEN 2 ELSE 1))
@@ -150,14 +195,14 @@ GNext == \E s \in Scripts :
            /\ \A j \in 1..(s - 1) : pc[j] \in {"done", "failed"}
            /\ GStep(s)
            /\ hist' = IF pc'[s] = "acq" \/ pc[s] = "acq" THEN hist ELSE Append(hist, last')
-           /\ UNCHANGED <<prog, wid>>
-GSpec == GInit /\ [][GNext]_<<vars, prog, hist, wid>>
+           /\ UNCHANGED <<prog, dims>>
+GSpec == GInit /\ [][GNext]_<<vars, prog, hist, dims>>
 
 X(st) == IF st.t1 = "" THEN st.l1 ELSE st.l1 \o ":" \o st.t1
 Y(st) == IF st.t2 = "" THEN st.l2 ELSE st.l2 \o ":" \o st.t2
 Out(st) == [op |-> st.op, x |-> X(st), y |-> Y(st), p |-> st.p]
 NScripts == Cardinality({s \in Scripts : prog[s] # <<>>})
-Scn == [world |-> wid, tags |-> W0.tag, par |-> par, mode |-> mode,
+Scn == [world |-> dims.world, mt |-> dims.mt, feat |-> dims.feat, tmo |-> dims.tmo, tags |-> W0.tag, par |-> par, mode |-> mode,
         scripts |-> [s \in 1..NScripts |-> [i \in 1..Len(prog[s]) |-> Out(prog[s][i])]],
         exp |-> hist, final |-> W.tag, status |-> [s \in 1..NScripts |-> pc[s]], tar |-> tar]
 Emit == AllOver => PrintT(<<"SCN", ToJson(Scn)>>)
